@@ -61,14 +61,17 @@ class Signable:
         if not data:
             raise DecodeError('Empty payload.')
         signable = cls()
-        if data[0] == 0:
-            signable.message.ParseFromString(data[1:])
-        elif data[0] == 1:
-            signable.signing_channel_hash = data[1:21]
-            signable.signature = data[21:85]
-            signable.message.ParseFromString(data[85:])
-        else:
-            raise DecodeError('Could not determine message format version.')
+        try:
+            if data[0] == 0:
+                signable.message.ParseFromString(data[1:])
+            elif data[0] == 1:
+                signable.signing_channel_hash = data[1:21]
+                signable.signature = data[21:85]
+                signable.message.ParseFromString(data[85:])
+            else:
+                raise DecodeError('Could not determine message format version.')
+        except UnicodeDecodeError as e:  # a text field that is not UTF-8
+            raise DecodeError(str(e))
         return signable
 
     def __len__(self):
